@@ -25,13 +25,15 @@
    FULL STATEMENT (for every parsed domain):  forall m in the range of parse_domain,
         parse (export m) = Ok m'  /\  vocabulary m' = vocabulary m  /\  behaviour m' = behaviour m.
    It is FALSE for the current library (C08_roundtrip_refuted: a universal condition with an empty body is printed
-   as nothing - D83, open) and true on [wf_mdomain] (C08_roundtrip, C08_vocabulary, C08_behaviour_actions ... _successor). *)
+   as nothing - D83, open) and true on [wf_mdomain] (C08_roundtrip, C08_vocabulary, C08_behaviour_actions ... _successor),
+   which the parser establishes for every text in PDDL's section order without empty quantifiers, up to name
+   hygiene and two facts about float() (C08_range_action, C08_range_domain, C08_roundtrip_parsed). *)
 From Coq Require Import List String Bool PrimFloat.
 From Verif Require Import Base.Result Base.Str Base.Sexp Base.PyDict Base.Float
   Model.Tokenizer Model.Types Model.NumExpr Model.Domain Model.Exec Model.DomainExporter Spec.Pddl Spec.Arith
   Proofs.C12_Print
   Corr.Core
-  Proofs.C08_Defs Proofs.C08_Domain Proofs.C08_Behaviour Proofs.C08_Idem Proofs.C08_Vocab Proofs.C08_Range Proofs.C08_Main.
+  Proofs.C08_Defs Proofs.C08_Domain Proofs.C08_Behaviour Proofs.C08_Idem Proofs.C08_Vocab Proofs.C08_Range Proofs.C08_RangeDom Proofs.C08_Perm Proofs.C08_Main.
 Import ListNotations.
 Open Scope string_scope.
 
@@ -43,12 +45,24 @@ Theorem C08_roundtrip : forall (num : numparser) (dpre deff : nat) (m : mdomain)
   parse_domain num (export_domain dpre deff m) = Ok (rr_domain num dpre deff m).
 Proof. exact domain_roundtrip. Qed.
 
+(* Every iteration order of the underlying sets: [perm_domain m m1] (Proofs/C08_Perm.v) says that m1 lists the
+   operands of every condition, its (in)equality pairs and the discrete / numeric / conditional / universal effects
+   of every action and of every 'when' in another order, independently at every nesting level (= the same Python
+   object iterated in another order, e.g. the library's own sorted order or another PYTHONHASHSEED).
+   Well-formedness does not depend on the order, so the round trip holds for every reordering of a well-formed
+   (in particular: of every parsed) domain. *)
+Theorem C08_set_orders : forall (num : numparser) (dpre deff : nat) (m m1 : mdomain),
+  wf_mdomain num dpre deff m = true -> perm_domain m m1 ->
+  wf_mdomain num dpre deff m1 = true /\
+  parse_domain num (export_domain dpre deff m1) = Ok (rr_domain num dpre deff m1).
+Proof. exact set_orders_roundtrip. Qed.
+
 (* The hypotheses are satisfiable by a non-trivial domain (types in 3 levels, constants, nested or/and, forall with
    inequality, when, forall-when, 8 numeric constants one of which (0.125 in a condition) is not representable). *)
 Theorem C08_example :
   ex_domain = Ok ex_m /\ wf_mdomain ex_num 2 4 ex_m = true /\
   parse_domain ex_num (export_domain 2 4 ex_m) = Ok (rr_domain ex_num 2 4 ex_m).
-Proof. exact (conj ex_parsed (conj ex_wf ex_roundtrip)). Qed.
+Proof. exact example_all. Qed.
 
 (* Range of the parser (actions): every action the parser accepts, written with its sections in the order
    :parameters, :precondition, :effect, satisfies wf_action with respect to the tables it was parsed against -
@@ -58,7 +72,7 @@ Proof. exact (conj ex_parsed (conj ex_wf ex_roundtrip)). Qed.
    declaration tables are well-formed too is evaluated for every parsed domain by the check, unit 'wf'.) *)
 Theorem C08_range_action : forall (num : numparser) (tt : typetable) (consts : pydict string)
     (preds funcs : pydict signature) (dpre deff : nat),
-  (forall d s x, num s = Some x -> num_ok num d x = true) ->
+  (forall d, d = dpre \/ d = deff -> forall s x, num s = Some x -> num_ok num d x = true) ->
   (forall k, str_in k ("=" :: comparison_ops ++ assignment_ops) = true -> dget funcs k = None) ->
   (forall c r x, num (String c r) = Some x -> str_in (String c EmptyString) comparison_ops = false) ->
   forall n ps pre eff a,
@@ -68,13 +82,48 @@ Theorem C08_range_action : forall (num : numparser) (tt : typetable) (consts : p
     wf_action num (type_known tt) (dmem consts) preds funcs dpre deff a = true.
 Proof. exact parse_action_wf. Qed.
 
+(* Range of the parser (whole domain): a domain text in PDDL's section order - (domain ..) [(:requirements ..)]
+   [(:types ..)] [(:constants ..)] [(:predicates ..)] [(:functions ..)] (:action name :parameters .. :precondition ..
+   :effect ..)* - that the parser accepts yields a domain object satisfying wf_mdomain, under the same hypotheses
+   about float() and with name hygiene stated on the RESULT (no type is called '-', no predicate carries a reserved
+   name, no function is named like an operator).  Hence, from text to text: *)
+Theorem C08_range_domain : forall (num : numparser) (dpre deff : nat),
+  (forall d, d = dpre \/ d = deff -> forall s x, num s = Some x -> num_ok num d x = true) ->
+  (forall c r x, num (String c r) = Some x -> str_in (String c EmptyString) comparison_ops = false) ->
+  forall e m,
+    canonical e = true -> no_vac e = true -> parse_domain num e = Ok m ->
+    forallb (fun kp => not_dash (fst kp)) (d_types m) = true ->
+    forallb (fun ns => negb (str_in (fst ns) reserved_names)) (d_preds m) = true ->
+    (forall k, str_in k ("=" :: comparison_ops ++ assignment_ops) = true -> dget (d_funcs m) k = None) ->
+    wf_mdomain num dpre deff m = true.
+Proof. exact parse_domain_wf. Qed.
+
+Theorem C08_roundtrip_parsed : forall (num : numparser) (dpre deff : nat),
+  (forall d, d = dpre \/ d = deff -> forall s x, num s = Some x -> num_ok num d x = true) ->
+  (forall c r x, num (String c r) = Some x -> str_in (String c EmptyString) comparison_ops = false) ->
+  forall e m,
+    canonical e = true -> no_vac e = true -> parse_domain num e = Ok m ->
+    forallb (fun kp => not_dash (fst kp)) (d_types m) = true ->
+    forallb (fun ns => negb (str_in (fst ns) reserved_names)) (d_preds m) = true ->
+    (forall k, str_in k ("=" :: comparison_ops ++ assignment_ops) = true -> dget (d_funcs m) k = None) ->
+    parse_domain num (export_domain dpre deff m) = Ok (rr_domain num dpre deff m).
+Proof. exact parsed_roundtrip. Qed.
+
+(* ... and these hypotheses are satisfiable: the example's float() table is closed under printing with 2 and 4
+   decimals, its text is canonical, has no empty quantifier and hygienic names. *)
+Theorem C08_range_example :
+  (forall d, d = 2 \/ d = 4 -> forall s x, ex_num s = Some x -> num_ok ex_num d x = true) /\
+  (forall c r x, ex_num (String c r) = Some x -> str_in (String c EmptyString) comparison_ops = false) /\
+  canonical ex_sexp = true /\ no_vac ex_sexp = true /\ parse_domain ex_num ex_sexp = Ok ex_m.
+Proof. exact range_example_all. Qed.
+
 (* Vocabulary: the re-read domain has the same types (with parents), constants (with types), predicates, functions
    and action signatures - the canonical vocabulary text the check compares (Corr.Core.model_vocab) is identical,
    for EVERY domain object (no hypothesis); name and requirements are unchanged too. *)
 Theorem C08_vocabulary : forall (num : numparser) (dpre deff : nat) (m : mdomain),
   model_vocab (rr_domain num dpre deff m) = model_vocab m /\
   d_name (rr_domain num dpre deff m) = d_name m /\ d_reqs (rr_domain num dpre deff m) = d_reqs m.
-Proof. intros num dpre deff m. exact (conj (vocab_same num dpre deff m) (conj eq_refl eq_refl)). Qed.
+Proof. exact vocabulary_same. Qed.
 
 (* Behaviour, for constants representable at the printed precision (float(text of x) = x for every constant of the
    domain): the re-read domain has literally the same action table, and grounding, applicability and successor
@@ -83,24 +132,24 @@ Proof. intros num dpre deff m. exact (conj (vocab_same num dpre deff m) (conj eq
 Theorem C08_behaviour_actions : forall (num : numparser) (dpre deff : nat) (m : mdomain),
   (forall dx, In dx (domain_nums dpre deff m) -> representable num dx) ->
   d_actions (rr_domain num dpre deff m) = d_actions m.
-Proof. intros num dpre deff m. exact (actions_same num dpre deff m). Qed.
+Proof. exact actions_same. Qed.
 
 Theorem C08_behaviour_ground : forall (num : numparser) (dpre deff : nat) (m : mdomain),
   wf_mdomain num dpre deff m = true ->
   forall a args, ground_action (rr_domain num dpre deff m) a args = ground_action m a args.
-Proof. intros num dpre deff m Hwf. exact (ground_same num dpre deff m Hwf). Qed.
+Proof. exact ground_same. Qed.
 
 Theorem C08_behaviour_applicable : forall (num : numparser) (dpre deff : nat) (m : mdomain),
   wf_mdomain num dpre deff m = true ->
   forall eps objs ga s, is_applicable (rr_domain num dpre deff m) eps objs ga s = is_applicable m eps objs ga s.
-Proof. intros num dpre deff m Hwf. exact (applicable_same num dpre deff m Hwf). Qed.
+Proof. exact applicable_same. Qed.
 
 Theorem C08_behaviour_successor : forall (num : numparser) (dpre deff : nat) (m : mdomain),
   wf_mdomain num dpre deff m = true ->
   forall eps ga objs allow skip order uorder s,
     apply_op (rr_domain num dpre deff m) eps ga objs allow skip order uorder s =
     apply_op m eps ga objs allow skip order uorder s.
-Proof. intros num dpre deff m Hwf. exact (successor_same num dpre deff m Hwf). Qed.
+Proof. exact successor_same. Qed.
 
 (* A second round changes nothing: when the values read back are themselves representable (float(text(y)) = y for
    y = float(text(x)), a fact about CPython's float() that the check re-tests on every numeral it sees), the
@@ -131,7 +180,7 @@ Theorem C08_roundtrip_refuted :
     applicable_in m' "a1" ["o1"] [("o1", "a")] empty_state = Ok true /\
     applicable_in m "a2" ["o1"] [("o1", "a")] empty_state = Ok true /\
     applicable_in m' "a2" ["o1"] [("o1", "a")] empty_state = Ok false.
-Proof. exists d83_text, d83_m, d83_m'. exact d83_refutes. Qed.
+Proof. exact refuted_all. Qed.
 
 (* Numerals (C12, reused): the numeral printed for ANY constant with ANY number of decimals, read back exactly as a
    decimal, is within half a unit of the last printed digit of the constant's exact binary value. *)
@@ -139,6 +188,7 @@ Theorem C08_numeral : forall (digits : nat) (v : float), print_ok digits v (num_
 Proof. exact C12_print_value_lemma. Qed.
 
 Print Assumptions C08_roundtrip.
+Print Assumptions C08_set_orders.
 Print Assumptions C08_example.
 Print Assumptions C08_behaviour_actions.
 Print Assumptions C08_behaviour_ground.
@@ -150,3 +200,6 @@ Print Assumptions C08_idempotent.
 Print Assumptions C08_idempotent_text.
 Print Assumptions C08_roundtrip_refuted.
 Print Assumptions C08_range_action.
+Print Assumptions C08_range_domain.
+Print Assumptions C08_roundtrip_parsed.
+Print Assumptions C08_range_example.
